@@ -53,6 +53,40 @@ def lean_str(s):
     return '"' + "".join(out) + '"'
 
 
+def re_words(r, limit=64):
+    """the finite language of an expression built from single characters, sequence, alternative and `?`
+    (None for anything else, or when it has more than `limit` words)"""
+    k = r[0]
+    if k == "eps":
+        return [""]
+    if k == "cls":
+        if len(r[1]) == 1 and r[1][0][0] == r[1][0][1]:
+            return [chr(r[1][0][0])]
+        return None
+    if k == "alts":
+        out = []
+        for x in r[1]:
+            w = re_words(x, limit)
+            if w is None:
+                return None
+            out += w
+        return out if len(out) <= limit else None
+    if k == "seqs":
+        out = [""]
+        for x in r[1]:
+            w = re_words(x, limit)
+            if w is None:
+                return None
+            out = [a + b for a in out for b in w]
+            if len(out) > limit:
+                return None
+        return out
+    if k == "opt":
+        w = re_words(r[1], limit)
+        return None if w is None else [""] + w
+    return None
+
+
 # ------------------------------------------------------------------------------------------------
 # Rust string literal -> text
 # ------------------------------------------------------------------------------------------------
@@ -243,6 +277,17 @@ def main():
     lex.append("")
     lex.append("end Aidl.Gen")
     lex.append("")
+    # the words of every lexer entry with a finite language (keywords, punctuation, DIRECTION): the
+    # harness substitutes each of them into every syntactic slot of fixed frames
+    col_of = dict(tok2col)
+    words = []
+    for i, (r, skip, pat) in enumerate(entries):
+        w = None if skip else re_words(r)
+        if w and i in col_of:
+            for x in w:
+                if x and not any(ch in x for ch in "\t\n\r"):
+                    words.append(f"{terms[col_of[i]]}\t{x}")
+    write_if_changed(os.path.join(gen_dir, "lexwords.txt"), "\n".join(words) + "\n")
 
     # ---------------- LR tables ----------------
     m = re.search(r"const __ACTION: &\[i16\] = &\[(.*?)\];", src, re.S)
